@@ -447,6 +447,18 @@ def gen_history(rng):
             if rng.random() < 0.15:
                 k += 1
                 ops.append({"op": "run", "job": j, "id": f"j{k}", "reuse": {"const": True, "dict": True, "driver": rng.random() < 0.5}})
+    if rng.random() < 0.10:
+        # settings-dictionary stratum: two DIFFERENT jobs of one settings family, the second with the dictionary object
+        # the first one used (whatever the first job wrote into it must not change the second job's numbers)
+        fams = {}
+        for j, v in JOBS.items():
+            if not v.get("expect_fail") and not v.get("dtype"):
+                fams.setdefault(v["fam"], []).append(j)
+        fam = rng.choice(sorted(f for f, js in fams.items() if len(js) >= 2))
+        a, b = rng.sample(fams[fam], 2)
+        if rng.random() < 0.5 and fam == "am1_sh":
+            a, b = "md_sh_h2co", "cis2_h2co"
+        ops = [{"op": "run", "job": a, "id": "fa", "reuse": {"const": False, "dict": False, "driver": False}}, {"op": "run", "job": b, "id": "fb", "reuse": {"const": rng.random() < 0.5, "dict": True, "driver": False}}]
     if rng.random() < 0.12:
         # the very first calculation of the process is a single-precision one (anything captured on first use
         # under the float32 default dtype would leak into the float64 jobs that follow)
